@@ -29,7 +29,9 @@ def gen3 : Policy → Nat → P X (List Nat)
       let i3 ← rB 1 b2
       let i4 ← rB 3 b0
       let i5 ← rB 2 b0
-      pure [i1, i2, i3, i4, i5]
+      -- inverse of `β3∘β2` (/repo e8bc83e, repair of D13): not derivable around an open face
+      let i6 ← rB 2 b3
+      pure [i1, i2, i3, i4, i5, i6]
   | .vertexLinear, d => do
       let b2 ← rB 2 d
       let b3 ← rB 3 d
@@ -80,8 +82,8 @@ def orbit3 (n : Nat) (pol : Policy) (d : Nat) : P X (List Nat) := orbitWith n (g
     marked when *popped* (the marked set is seeded with the null dart only), every image is pushed
     unconditionally, `min` is updated on every newly marked dart.
 
-    Fuel: a dart is expanded at most once and every expansion pushes at most 5 images, so there
-    are at most `1 + 5 * (n - 1)` pops; callers pass `8 * n + 8`. -/
+    Fuel: a dart is expanded at most once and every expansion pushes at most 6 images, so there
+    are at most `1 + 6 * (n - 1)` pops; callers pass `8 * n + 8`. -/
 def popLoop (gen : Nat → P X (List Nat)) : Nat → List Nat → List Nat → Nat → P X Nat
   | 0, _, _, _ => Prog.panic
   | _ + 1, [], _, mn => pure mn
@@ -92,7 +94,8 @@ def popLoop (gen : Nat → P X (List Nat)) : Nat → List Nat → List Nat → N
         popLoop gen f (rest ++ ims) (marked ++ [d]) (min mn d)
 
 /-- images pushed by `vertex_id_transac`, in push order:
-    `β1∘β3, β3∘β2, β1∘β2, β3∘β0, β2∘β0` (reads: `β0 d, β2 d, β3 d` first) -/
+    `β1∘β3, β3∘β2, β1∘β2, β3∘β0, β2∘β0, β2∘β3` (reads: `β0 d, β2 d, β3 d` first; the sixth image —
+    the inverse of `β3∘β2`, /repo e8bc83e, repair of D13 — reuses the `β3 d` already read) -/
 def genVid3 (d : Nat) : P X (List Nat) := do
   let b0 ← rB 0 d
   let b2 ← rB 2 d
@@ -102,7 +105,8 @@ def genVid3 (d : Nat) : P X (List Nat) := do
   let i3 ← rB 1 b2
   let i4 ← rB 3 b0
   let i5 ← rB 2 b0
-  pure [i1, i2, i3, i4, i5]
+  let i6 ← rB 2 b3
+  pure [i1, i2, i3, i4, i5, i6]
 
 /-- `vertex_id_transac` (3-D).  `vertexId3 n 0 = 0` without any read. -/
 def vertexId3 (n d : Nat) : P X Nat := popLoop genVid3 (8 * n + 8) [d] [0] d
